@@ -3,9 +3,9 @@ package fasta
 // Bounded / replay harness of formats/fasta (see /verif/replay/README.md).
 // Injected with `go test -overlay`; not part of the repository.
 //
-// func (*Fasta).Write       -> clauses C01/roundtrip, C07/write-fault
-// func (*Fasta).MarshalText -> clause  C01/roundtrip
-// func Reader               -> clauses C01/roundtrip, C01/layout, C06/chunking, C06/crlf,
+// func (*Fasta).Write       -> clauses C01/roundtrip, C01/marshal-list, C07/write-fault
+// func (*Fasta).MarshalText -> clauses C01/roundtrip, C01/marshal-list
+// func Reader               -> clauses C01/roundtrip, C01/layout, C01/marshal-list, C06/chunking, C06/crlf,
 //                              C07/read-fault, C11/total, C18/stop
 // func File                 -> clauses C06/file, C18/stop
 //
@@ -653,6 +653,16 @@ var vfClauses = []vrClause{
 		Run:  vfRunLayout,
 	},
 	{
+		Prop: "C01", Name: "marshal-list",
+		Bound: "exhaustive: all ordered pairs of the 28 small records (name in {'>','x'}^<=2, seq in A^0..3); all ordered pairs of marked records with the sequence lengths 0,1,2,79,80,81,159,160,161,239,240,241; " +
+			"the 12 marked records in increasing, decreasing and alternating length order (windows of 6); then random lists of 2..6 records of pairwise different sizes over all bytes of the domain until the budget ends",
+		Rule: "MarshalText is called on every record of the list first and the returned slices are kept untouched; afterwards each kept slice is byte-identical to what Write of that record puts into a fresh buffer " +
+			"(a result is not clobbered by later MarshalText/Write calls); Reader over the kept slices joined yields exactly the records in order; " +
+			"Write of all records into one shared buffer emits the concatenation of those bytes and reads back as the same list",
+		Gen: vfGenMarshalList,
+		Run: vfRunMarshalList,
+	},
+	{
 		Prop: "C06", Name: "chunking",
 		Bound: "exhaustive: all byte strings over {'>',LF,CR,'A'} of length <=4 (thorough <=6) x every partition into successive reads x EOF with/without the last data; " +
 			"length 5 (thorough 7) with chunk sizes [1],[2],[3],[1,2],[whole]; well-formed corpus incl. >4096 and >64 KiB inputs at sizes around the bufio buffer; then random",
@@ -902,6 +912,151 @@ func vfGenLayout(g *vrGen) {
 		l := vfRandRecs(r, 4)
 		rnd.emit(map[string]any{"records": vfRecsIn(l), "widths": vrI(ws), "blank": vrI(bl),
 			"crlf": r.Intn(2) == 0, "final_newline": r.Intn(2) == 0}, vfSize(l))
+	}
+}
+
+// ---------------------------------------------------------------- C01/marshal-list
+
+func vfRunMarshalList(in map[string]any) vrResult {
+	recs := vfRecs(in["records"])
+	if !vfInDomain(recs) {
+		return vrResult{OK: true, Trivial: true, Observed: "outside the domain"}
+	}
+	fs := make([]*Fasta, len(recs))
+	for i, r := range recs {
+		fs[i] = &Fasta{Name: bytes.Clone(r.Name), Sequence: bytes.Clone(r.Seq)}
+	}
+	// 1. every MarshalText call first; the results are kept as returned (not
+	// copied, not touched between the calls).
+	kept := make([][]byte, len(fs))
+	for i, f := range fs {
+		var merr error
+		if p := vrCatch(func() { kept[i], merr = f.MarshalText() }); p != nil {
+			return vfFail(fmt.Sprintf("record %d: MarshalText panicked: %v", i, p), "no panic")
+		}
+		if merr != nil {
+			return vfFail(fmt.Sprintf("record %d: MarshalText returned %v", i, merr), "nil error")
+		}
+	}
+	// 2. only now the reference bytes: Write of each record into a fresh buffer
+	// (all of them before the first comparison).
+	refs := make([][]byte, len(fs))
+	for i, f := range fs {
+		var buf bytes.Buffer
+		var werr error
+		if p := vrCatch(func() { werr = f.Write(&buf) }); p != nil {
+			return vfFail(fmt.Sprintf("record %d: Write panicked: %v", i, p), "no panic")
+		}
+		if werr != nil {
+			return vfFail(fmt.Sprintf("record %d: Write to a bytes.Buffer returned %v", i, werr), "nil error")
+		}
+		refs[i] = buf.Bytes()
+	}
+	for i := range fs {
+		if !bytes.Equal(kept[i], refs[i]) {
+			return vfFail(fmt.Sprintf("record %d of %d: the slice MarshalText returned holds %s after the later calls, Write emits %s", i, len(fs), vfShort(kept[i]), vfShort(refs[i])),
+				"identical bytes (a MarshalText result is not changed by later MarshalText/Write calls)")
+		}
+	}
+	want := vfItemsOf(recs)
+	// 3. the kept slices joined read back as the list.
+	joined := bytes.Join(kept, nil)
+	got, bad := vfAll(Reader(bytes.NewReader(joined)), len(recs)+10)
+	if bad != "" {
+		return vfFail("joined MarshalText results: "+bad+"; "+vfShow(got), "the records")
+	}
+	if d := vfDiff(got, want); d != "" {
+		return vfFail("joined MarshalText results: "+d+"; "+vfShow(got), vfShow(want))
+	}
+	// 4. all records written one after another into one shared buffer.
+	var shared bytes.Buffer
+	for i, f := range fs {
+		var werr error
+		if p := vrCatch(func() { werr = f.Write(&shared) }); p != nil {
+			return vfFail(fmt.Sprintf("record %d: Write to the shared buffer panicked: %v", i, p), "no panic")
+		}
+		if werr != nil {
+			return vfFail(fmt.Sprintf("record %d: Write to the shared bytes.Buffer returned %v", i, werr), "nil error")
+		}
+	}
+	if !bytes.Equal(shared.Bytes(), bytes.Join(refs, nil)) {
+		return vfFail(fmt.Sprintf("sequential Write calls into one buffer emitted %s", vfShort(shared.Bytes())),
+			"the concatenation of what each Write emits into a fresh buffer: "+vfShort(bytes.Join(refs, nil)))
+	}
+	got, bad = vfAll(Reader(bytes.NewReader(shared.Bytes())), len(recs)+10)
+	if bad != "" {
+		return vfFail("shared buffer: "+bad+"; "+vfShow(got), "the records")
+	}
+	if d := vfDiff(got, want); d != "" {
+		return vfFail("shared buffer: "+d+"; "+vfShow(got), vfShow(want))
+	}
+	return vrResult{OK: true, Trivial: len(recs) < 2}
+}
+
+// vfMarkedRec: record number k of a list; the name starts with a byte that is
+// different for every k (so that the encodings differ from the second byte on)
+// and the sequence has the given length.
+func vfMarkedRec(k, n int) vfRec {
+	mark := byte('a' + k%26)
+	return vfRec{[]byte(fmt.Sprintf("%c%d", mark, n)), bytes.Repeat([]byte{"ACGTN"[k%5], mark}, (n+1)/2)[:n]}
+}
+
+func vfGenMarshalList(g *vrGen) {
+	complete := true
+	emit := func(l []vfRec) bool {
+		if g.Expired() {
+			complete = false
+			return false
+		}
+		g.Case(map[string]any{"records": vfRecsIn(l)})
+		return true
+	}
+	ok := true
+	// marked records of different lengths: shorter before longer and vice versa
+	for i, a := range vfLens {
+		for j, b := range vfLens {
+			ok = ok && emit([]vfRec{vfMarkedRec(i, a), vfMarkedRec(12+j, b)})
+		}
+	}
+	var up, down, alt []vfRec
+	for i, n := range vfLens {
+		up = append(up, vfMarkedRec(i, n))
+		down = append(down, vfMarkedRec(i, vfLens[len(vfLens)-1-i]))
+		if i%2 == 0 {
+			alt = append(alt, vfMarkedRec(i, vfLens[len(vfLens)-1-i/2]))
+		} else {
+			alt = append(alt, vfMarkedRec(i, vfLens[i/2]))
+		}
+	}
+	for _, l := range [][]vfRec{up, down, alt} {
+		for i := 0; i+6 <= len(l); i++ {
+			ok = ok && emit(l[i:i+6])
+		}
+	}
+	small := vfSmallRecs()
+	for _, a := range small {
+		for _, b := range small {
+			ok = ok && emit([]vfRec{a, b})
+		}
+	}
+	g.Exhaustive(complete && ok)
+	r := g.Rand
+	for rnd := (&vfRnd{g: g}); rnd.more(); {
+		l := make([]vfRec, 2+r.Intn(5))
+		sizes := map[int]bool{}
+		for i := range l {
+			for try := 0; ; try++ {
+				l[i] = vfRandRec(r)
+				if r.Intn(2) == 0 { // marker byte in front of the name
+					l[i].Name = append([]byte{byte('a' + i)}, l[i].Name...)
+				}
+				if sz := len(l[i].Name) + len(l[i].Seq); !sizes[sz] || try >= 20 {
+					sizes[sz] = true
+					break
+				}
+			}
+		}
+		rnd.emit(map[string]any{"records": vfRecsIn(l)}, vfSize(l))
 	}
 }
 
